@@ -675,7 +675,8 @@ let c08 (payload : string) : string =
         | 'g' -> sched := (t, O) :: (t, O) :: !sched
         | _ -> sched := (t, O) :: !sched) (split_on ',' ops)
     | _ -> failwith ("token " ^ t)) toks;
-  let env = (fun _ -> None) in
+  (* a message whose header names a compressor carries the bytes its compressor produced (the harness ran it) *)
+  let env = (fun _ -> Some { c_zip = (fun x -> Some x); c_unzip = (fun _ -> None) }) in
   let empty = { m_hdr = bytes_of_hex "080000000000000000000000"; m_path = []; m_meth = []; m_meta = []; m_payload = [] } in
   let msg (t : nat) = (match Hashtbl.find_opt msgs (int_of_nat t) with Some m -> m | None -> empty) in
   let s = wrun env msg (fun t -> if List.mem (int_of_nat t) !nowrite then [OGet; OFill; OPut] else [OGet; OFill; OWrite; OPut])
